@@ -188,6 +188,10 @@ def p_get_range(I, st, fr, e, c, a):
 def mk_slice(st, x, lo, hi):
     if x[0] == "arange":
         return ("arange", x[1] + lo, x[1] + hi)
+    if x[0] in ("concat", "gather", "shift"):
+        # a window of a concatenation / re-indexing: the same normal form as composing with arange(lo, hi)
+        import values
+        return values._degenerate(st, ("slice", x, lo, hi))
     return ("slice", x, lo, hi)
 
 
